@@ -47,7 +47,7 @@ func (c10) Cases(tier string) int {
 func (c10) Describe() core.Info {
 	return core.Info{
 		Level: "exploration",
-		Rule: "inputs derived from a seed corpus (all 26 .mg files of the repository, a snippet file covering every construct, printed programs from the typed generators, simple-column files written by the library) by deterministic mutators: token level (delete / duplicate / swap / splice tokens, unbalance brackets, truncate inside escapes and \\u{), byte level (flips, NULs, invalid UTF-8, truncation), fact-file level (empty lines, negative / huge / non-numeric counts, arity != columns, truncated columns, bad percent escapes). Each input is offered to parse.Unit, parse.Clause, parse.Term, parse.LiteralOrFormula, parse.PredicateName and ast.Unescape; a parsed unit goes through AnalyzeAndCheckBounds(ErrorForBoundsMismatch) and, if accepted, EvalProgram with a created-fact limit, a temporal store and a counting store wrapper (logical step bound); fact files go through SimpleColumn.ReadInto and the lazy SimpleColumnStore (plain and gzip) with GetFacts on every listed predicate. Refuted by any panic (recovered in the worker, attributed to the journalled input) or by the step bound; a wall-clock watchdog yields inconclusive only. Non-trivial: input reaches a stage beyond lexing (parses, or fails inside the parser after >= 3 tokens); distinct by input hash.",
+		Rule: "inputs derived from a seed corpus (all 26 .mg files of the repository, a snippet file covering every construct, printed programs from the typed generators, simple-column files written by the library) by deterministic mutators: token level (delete / duplicate / swap / splice tokens, unbalance brackets, truncate inside escapes and \\u{), byte level (flips, NULs, invalid UTF-8, truncation), fact-file level (empty lines, negative / huge / non-numeric counts, arity != columns, truncated columns, bad percent escapes). Each input is offered to parse.Unit, parse.Clause, parse.Term, parse.LiteralOrFormula, parse.PredicateName and ast.Unescape; a parsed unit goes through AnalyzeAndCheckBounds(ErrorForBoundsMismatch) and, if accepted, EvalProgram with a created-fact limit, a temporal store and a counting store wrapper (logical step bound); fact files go through SimpleColumn.ReadInto and the lazy SimpleColumnStore (plain and gzip) with GetFacts on every listed predicate. Refuted by any panic (recovered in the worker, attributed to the journalled input) or by the step bound; a wall-clock watchdog yields inconclusive only. Non-trivial: input reaches a stage beyond lexing (parses, or fails inside the parser after >= 3 tokens); distinct by input hash. A third of the declaration units are lattice units (fundep + merge declarations with column lists that are too long, repeat or miss a column, merge predicates of arity 1-5, modes of the wrong length, merge predicates that call themselves) whose rules derive several values per key so that the merge runs.",
 		Assumptions: []string{"'all byte strings' is approached by mutation of a structured corpus, not decided"},
 		PerCaseTimeout: 60e9,
 	}
